@@ -175,7 +175,8 @@ Definition monitor (which : N) (cfg : list N) (tr : list (list N * obs)) : bool 
   | k :: _ =>
       match which with
       | 13%N => state_ok (N.to_nat k) (dec_trace tr) && ids_stable (dec_trace tr)
-      | 11%N => handles_ok tr
+      (* C11 = handle lifecycle and the close clauses of the protocol monitor *)
+      | 11%N => handles_ok tr && state_ok (N.to_nat k) (dec_trace tr)
       | _ => true
       end
   | _ => true
